@@ -106,5 +106,154 @@ def strictParse (env : Env P O T V) (i : Internals P O V) : Input V → Out V
               else checked env i false v                        -- validator runs on the extracted value: no pointer pass
   | .foreign => .errType
 
+/-! ## Histories of derivations and parses (C09, round 2)
+
+  Schemas live in a heap. Every cell holds the schema's *configuration* (`Internals`, the fields the
+  public API reads and writes) and whatever else the implementation keeps per schema (`H`: nothing in
+  the pinned code; a memoised fast-path flag would live here). The strict entry points consult
+  `Impl.fast cfg hid` where the pinned code evaluates the fast-path condition in line.  -/
+
+/-- `ParsePrimitiveStrict` with the answer of its fast-path test passed in. -/
+def strictParseWith (env : Env P O T V) (i : Internals P O V) (fast : Bool) : Input V → Out V
+  | .nil => nilPath env i
+  | .nilPtr => nilPath env i
+  | .val v => if fast then .okVal v
+              else if i.checks.isEmpty then .okVal v
+              else checked env i false v
+  | .ptr v => if fast then .okVal v
+              else if i.checks.isEmpty then .okVal v
+              else checked env i false v
+  | .foreign => .errType
+
+theorem strictParse_eq_with (env : Env P O T V) (i : Internals P O V) (x : Input V) :
+    strictParse env i x = strictParseWith env i (strictFast i) x := by
+  cases x <;> rfl
+
+/-- The six entry points. -/
+inductive EP where
+  | parse | strict | parseAny | mustParse | mustStrict | mustParseAny
+  deriving Repr, DecidableEq
+
+def EP.isStrict : EP → Bool
+  | .strict => true
+  | .mustStrict => true
+  | _ => false
+
+/-- How a type's `CloneFrom(src)` rewrites the receiver: `keepChecks` = `*z.internals = *src.internals;
+    z.internals.Checks = orig` (integer, float, bool, enum, time, slice, object, …); `copyAll` = the
+    receiver takes the source's internals, checks included (string: a `Clone()` of them; union, map,
+    record, …: the very same pointer — equal configurations either way). -/
+inductive CloneKind where
+  | keepChecks | copyAll
+  deriving Repr, DecidableEq
+
+/-- The receiver's configuration after `CloneFrom`: a function of the two operands' configurations. -/
+def cloneCfg (k : CloneKind) (dst src : Internals P O V) : Internals P O V :=
+  match k with
+  | .copyAll => src
+  | .keepChecks => { src with checks := dst.checks, ctorPtr := dst.ctorPtr, isRefine := dst.isRefine }
+
+structure Cell (P O V H : Type) where
+  cfg : Internals P O V
+  hid : H
+
+/-- What an implementation may do with per-schema state besides the configuration. -/
+structure Impl (P O V H : Type) where
+  /-- the answer the strict entry points use for "nothing to do for a non-nil input" -/
+  fast : Internals P O V → H → Bool
+  /-- hidden state of a schema produced by a constructor or by `Clone()` + setters -/
+  init : Internals P O V → H
+  /-- hidden state after a call of an entry point -/
+  onRun : EP → Internals P O V → H → Input V → H
+  /-- hidden state of the receiver after `CloneFrom` (receiver, source) -/
+  onClone : CloneKind → Cell P O V H → Cell P O V H → H
+
+/-- The pinned code: no per-schema state besides the configuration; the fast-path condition is
+    recomputed from the configuration on every call. -/
+def pinned : Impl P O V Unit where
+  fast := fun c _ => strictFast c
+  init := fun _ => ()
+  onRun := fun _ _ _ _ => ()
+  onClone := fun _ _ _ => ()
+
+/-- One step of a history. -/
+inductive Op (P O V : Type) where
+  | mk (cfg : Internals P O V)                                   -- a constructor call
+  | chain (j : Nat) (f : Internals P O V → Internals P O V)      -- any copy-on-write method of schema j
+  | cloneFrom (k : CloneKind) (dst src : Nat)                    -- schema dst .CloneFrom(schema src)
+  | run (ep : EP) (j : Nat) (x : Input V)                        -- an entry point of schema j on x
+
+def runEP {H : Type} (m : Impl P O V H) (env : Env P O T V) (ep : EP) (c : Cell P O V H) (x : Input V) : Out V :=
+  if ep.isStrict then strictParseWith env c.cfg (m.fast c.cfg c.hid) x else parse env c.cfg x
+
+/-- `CloneFrom` is a no-op unless both operands have the same Go type (`source.(*ZodX[T, R])`). -/
+def sameGoType (a b : Internals P O V) : Bool := a.ptrSchema == b.ptrSchema
+
+def step {H : Type} (m : Impl P O V H) (env : Env P O T V) (h : List (Cell P O V H)) :
+    Op P O V → List (Cell P O V H) × Option (Out V)
+  | .mk c => (h ++ [⟨c, m.init c⟩], none)
+  | .chain j f =>
+    match h[j]? with
+    | some c => (h ++ [⟨f c.cfg, m.init (f c.cfg)⟩], none)
+    | none => (h, none)
+  | .cloneFrom k d s =>
+    match h[d]?, h[s]? with
+    | some cd, some cs =>
+      if sameGoType cd.cfg cs.cfg then (h.set d ⟨cloneCfg k cd.cfg cs.cfg, m.onClone k cd cs⟩, none)
+      else (h, none)
+    | _, _ => (h, none)
+  | .run ep j x =>
+    match h[j]? with
+    | some c => (h.set j ⟨c.cfg, m.onRun ep c.cfg c.hid x⟩, some (runEP m env ep c x))
+    | none => (h, none)
+
+/-- Run a history; the outputs of its `run` steps in order. -/
+def exec {H : Type} (m : Impl P O V H) (env : Env P O T V) :
+    List (Cell P O V H) → List (Op P O V) → List (Cell P O V H) × List (Out V)
+  | h, [] => (h, [])
+  | h, op :: ops =>
+    let (h', o) := step m env h op
+    let (h'', os) := exec m env h' ops
+    (h'', match o with | some r => r :: os | none => os)
+
+/-- The reference: configurations only; parses do not touch the heap and every entry point answers
+    what `Parse` answers on the schema's current configuration. -/
+def cfgStep (h : List (Internals P O V)) : Op P O V → List (Internals P O V)
+  | .mk c => h ++ [c]
+  | .chain j f =>
+    match h[j]? with
+    | some c => h ++ [f c]
+    | none => h
+  | .cloneFrom k d s =>
+    match h[d]?, h[s]? with
+    | some cd, some cs => if sameGoType cd cs then h.set d (cloneCfg k cd cs) else h
+    | _, _ => h
+  | .run _ _ _ => h
+
+def specOut (env : Env P O T V) (h : List (Internals P O V)) : Op P O V → Option (Out V)
+  | .run _ j x => (h[j]?).map fun c => parse env c x
+  | _ => none
+
+def execSpec (env : Env P O T V) : List (Internals P O V) → List (Op P O V) → List (Internals P O V) × List (Out V)
+  | h, [] => (h, [])
+  | h, op :: ops =>
+    let (h'', os) := execSpec env (cfgStep h op) ops
+    (h'', match specOut env h op with | some r => r :: os | none => os)
+
+def Op.isRun : Op P O V → Bool
+  | .run _ _ _ => true
+  | _ => false
+
+/-- A memoising implementation (the shape of change the histories are there to catch): the strict
+    entry points cache the fast-path answer per schema; `Clone()` + setters drop the cache; a
+    `keepChecks` `CloneFrom` struct-copies the source's internals, cache included. -/
+def memoising : Impl P O V (Option Bool) where
+  fast := fun c h => h.getD (strictFast c)
+  init := fun _ => none
+  onRun := fun ep c h _ => if ep.isStrict then some (h.getD (strictFast c)) else h
+  onClone := fun k _ s => match k with
+    | .keepChecks => s.hid
+    | .copyAll => none
+
 end
 end Gozod.Prim
